@@ -14,6 +14,7 @@ From Coq Require Import String List Arith Bool Permutation.
 Import ListNotations.
 From NP Require Import Base Values Dtype Names Io Proofs_Io.
 From NP Require Import Arrow Abs Kernels Logical ExtArray Codec Steps Io2 Proofs_Io2.
+From NP Require Import Glue Proofs_Glue.
 
 Theorem C08_removal_by_descending_position_is_filtering : forall (idx : list nat) (l : list outcol),
   NoDup idx -> (forall i, In i idx -> i < length l) ->
@@ -82,6 +83,25 @@ Theorem C08_unrepaired_reader_refuted :
   res_map svalid (m_partial_chunk missing_witness ["a"%string]) = Ok [true; false].
 Proof. exact unrepaired_partial_load_refuted. Qed.
 Print Assumptions C08_unrepaired_reader_refuted.
+
+(* which columns the reader makes nested (Glue.v mirrors _cast_struct_cols_to_nested): one output per column in order; a
+   column becomes nested exactly when it is a well-formed struct of lists that is not rejected; the read fails exactly
+   when some struct-of-lists column that is not rejected is ragged *)
+Theorem C08_reader_keeps_columns : forall cols reject out, m_cast_cols cols reject = Ok out -> map fst out = map fst cols.
+Proof. exact cast_cols_shape. Qed.
+Print Assumptions C08_reader_keeps_columns.
+
+Theorem C08_reader_nests_the_right_columns : forall cols reject out i nm k,
+  m_cast_cols cols reject = Ok out -> nth_error cols i = Some (nm, k) ->
+  nth_error out i = Some (nm, match k with KStructLists true => if mem_str nm reject then CUnchanged else CNested | _ => CUnchanged end)
+  /\ (k = KStructLists false -> mem_str nm reject = true).
+Proof. exact cast_cols_nested. Qed.
+Print Assumptions C08_reader_nests_the_right_columns.
+
+Theorem C08_reader_refuses_ragged : forall cols reject,
+  m_cast_cols cols reject = Err <-> exists nm, In (nm, KStructLists false) cols /\ mem_str nm reject = false.
+Proof. exact cast_cols_refused. Qed.
+Print Assumptions C08_reader_refuses_ragged.
 
 (* non-vacuity: fields of two nests requested interleaved with a base column *)
 Example C08_nonvacuous :
